@@ -57,6 +57,13 @@ class _TextParser(HTMLParser):
     self.parent: model.ContentElement = paragraph
     super().__init__()
 
+  def parse_marked_section(self, i, report=1):
+    try:
+      return super().parse_marked_section(i, report)
+    except AssertionError:
+      # "<![" that does not start a marked section known to the HTML parser is skipped like a bogus comment
+      return self.parse_bogus_comment(i, report)
+
   def handle_starttag(self, tag, attrs):
 
     span = model.Span(self.parent.get_doc())
